@@ -9,7 +9,7 @@ for d in sorted(os.listdir(os.path.join(V, "seeded"))):
         continue
     m = json.load(open(mp))
     cell = lambda x: str(x).replace("|", "\\|").replace("\n", " ")
-    rows.append(f"| `{d}` | {m.get('breaks')} | {cell(m.get('what'))[:400]} | {cell(m.get('needs_to_manifest'))[:300]} | {cell(m.get("detected_by"))[:700]} |")
+    rows.append(f"| `{d}` | {m.get('breaks')} | {cell(m.get('what'))[:400]} | {cell(m.get('needs_to_manifest'))[:300]} | {cell(m.get('detected_by'))[:700]} |")
 table = "<!-- SEEDED:BEGIN -->\n" + "\n".join(rows) + "\n<!-- SEEDED:END -->"
 p = os.path.join(V, "DESIGN.md")
 s = open(p).read()
